@@ -68,9 +68,9 @@ func (c *converter) ProgramEnd() error {
 			"local _i=${2}",
 			fmt.Sprintf(`local _l=%s`, c.sliceLenString("${1}")),
 			`for ((_c=${_l};_c<${_i};_c++)); do`,
-			c.sliceAssignmentString("${1}", "${_c}", "${4}", false),
+			c.sliceAssignmentString("${1}", "${_c}", `\${4}`, false), // The escaped reference is expanded by eval, the value itself is never re-evaluated.
 			`done`,
-			c.sliceAssignmentString("${1}", "${_i}", "${3}", false),
+			c.sliceAssignmentString("${1}", "${_i}", `\${3}`, false),
 		)
 	}
 
@@ -81,7 +81,7 @@ func (c *converter) ProgramEnd() error {
 			"local _n=$(eval \"echo \\${${1}}\")",
 			"while [ ${_i} -lt ${_l} ]; do",
 			fmt.Sprintf("local _v=%s", c.sliceEvaluationString("${2}", "${_i}")),
-			c.sliceAssignmentString("${_n}", "${_i}", "${_v}", false),
+			c.sliceAssignmentString("${_n}", "${_i}", `\${_v}`, false),
 			"_i=$((${_i}+1))",
 			"done",
 		)
